@@ -219,6 +219,12 @@ func (b *baseActor) PostInboxScheme(c context.Context, w http.ResponseWriter, r 
 		w.WriteHeader(http.StatusBadRequest)
 		return true, nil
 	}
+	// An 'id' that is not an IRI (null, a number, an empty or relative
+	// string, ...) deserializes to a property that holds no IRI value.
+	if !activity.GetJSONLDId().IsIRI() {
+		w.WriteHeader(http.StatusBadRequest)
+		return true, nil
+	}
 	// Allow server implementations to set context data with a hook.
 	c, err = b.delegate.PostInboxRequestBodyHook(c, r, activity)
 	if err != nil {
